@@ -15,6 +15,9 @@ for pid in ALL:
         na.append(dict(property_id=pid, reason=NA_REASONS.get(pid, "contracts for this property are not built yet (work in progress; see DESIGN.md section 5)")))
         continue
     m = importlib.import_module(f"contracts.{pid}")
+    if getattr(m, "READY", True) is False:
+        na.append(dict(property_id=pid, reason="contracts for this property are under construction (not yet claimed)"))
+        continue
     if getattr(m, "NOT_APPLICABLE", None):
         na.append(dict(property_id=pid, reason=m.NOT_APPLICABLE))
         continue
